@@ -147,6 +147,9 @@ func (P) Generate(g *core.Gen) {
 	for i := g.N(4, 20); i > 0; i-- {
 		genPruneCrash(g.R, emit)
 	}
+	for i := g.N(8, 60); i > 0; i-- {
+		genSyncOrder(g.R, emit)
+	}
 	// every per-key life cycle across leveldb / cache / pending (both tiers)
 	genLifecycle(g.R, emit)
 }
